@@ -55,8 +55,33 @@ AVOID3 = {
  "C19": "integer overflow in compression_percent; 0x7f in safe_output",
  "C20": "add_ref before a failing placeholder fopen; path=filename before strdup in split_header_filename",
 }
+AVOID4 = {
+ "C01": "zero-run clamp to n-1 in read_code_table; (any change in) read_length_value",
+ "C02": "init_groups fill bound; 8-bit group id in make_group_leader",
+ "C03": "(lz5/lzs ring initialisation and copy positions generally)",
+ "C04": "pm2 offset_lengths hoisted to static; bit reader refill size hoisted out of the loop",
+ "C05": "collapse_path prefix test for '..'; timestamp decoders",
+ "C06": "(option parsing of q; MacBinary length rounding)",
+ "C07": "open_decoder early return when a decoder exists; exit status as a failure count",
+ "C08": "(ext header length checks)",
+ "C09": "(history ring indices in pm2/lh_new)",
+ "C10": "bare q swallowing the next option letter; deferred symlink ordering",
+ "C11": "missing final separator appended after collapse_path; leading '/' skipped twice",
+ "C12": "extra_flags clobbered by the OS-9 decoder; basic reader eof flag",
+ "C13": "level-3 length cap split over two sites; quadratic all-caps folding",
+ "C14": "CRC updated at decode time; progress check before stream_pos update",
+ "C15": "LEADIN_BUFFER_LEN vs skip; deferred symlink list pop order",
+ "C16": "static seekability probe; skip_sfx byte budget",
+ "C17": "block loop dropping the last full block; unrolled tail switch",
+ "C18": "safe_printf stack buffer length; plain-name fast path in list.c",
+ "C19": "safe_printf fit test; type letter from mode bits",
+ "C20": "realloc result published late in extend_raw_data; path decoder not freeing the old path",
+}
 extra = ""
-if len(sys.argv) > 3 and sys.argv[3] == "r3":
+if len(sys.argv) > 3 and sys.argv[3] == "r4":
+    extra = ("\n\nIMPORTANT: changes at the following sites/mechanisms have already been collected for this property; produce changes that hit DIFFERENT functions and mechanisms: "
+             + AVOID.get(pid, "") + "; " + AVOID3.get(pid, "") + "; " + AVOID4.get(pid, "") + ". Prefer defects that an exhaustive-but-small test harness would plausibly overlook because they only manifest with: (a) large counts or sizes (hundreds of members, values crossing 8/16/32-bit or buffer-size boundaries, long runs), (b) unusual but legal usage patterns (stopping early, querying accessors midway, zero-length requests, continuing after a failure was reported, several archives or decoders in one process, a different order of otherwise independent calls), (c) unusual but valid encodings (redundant or padded fields, minimal or maximal field widths, optional parts present twice or in an unusual order, rarely used OS types or header levels), or (d) the interaction of two features that are each tested alone. Name your output directories " + pid + "-7 and " + pid + "-8.")
+elif len(sys.argv) > 3 and sys.argv[3] == "r3":
     extra = ("\n\nIMPORTANT: changes at the following sites/mechanisms have already been collected for this property; produce changes that hit DIFFERENT functions and mechanisms: "
              + AVOID.get(pid, "") + "; " + AVOID3.get(pid, "") + ". Prefer kinds of change not in that list: two cooperating sites that each look fine alone, an error/cleanup path, a boundary of a numeric field or counter, an interaction between two options or two extended headers, state carried from one member/call to the next. Name your output directories " + pid + "-5 and " + pid + "-6.")
 elif round2:
